@@ -156,7 +156,7 @@ def run(ctx, selftest=False):
     verdicts = ctx.validate("MultiSurveyTrace", traces)
     ctx.judge(traces, verdicts)
     if selftest or not quick:
-        _selftest(ctx, traces)
+        _selftest(ctx, [t for t in traces if verdicts[t["id"]]["ok"]])     # only traces the monitor accepted are corrupted
 
 
 def b_ok(t, Counter):
